@@ -157,9 +157,10 @@ partial def runSteps (progs : Progs Float) (n : Nat) (snap : Bool) (s : KS) : IO
     flushTrace s' from_
     if snap then IO.println (fmtSnap s')
     runSteps progs (n - 1) snap s'
-  | .stopped v s' =>
+  | .stopped o s' =>
     flushTrace s' from_
-    IO.println s!"X StopSimulation {fmtVal s' v} @{s'.now.bitsStr}"
+    let v := match o with | .ok v => fmtVal s' v | .fail _ => "s*"
+    IO.println s!"X StopSimulation {v} @{s'.now.bitsStr}"
     if snap then return (s', false) else runSteps progs (n - 1) snap s'
   | .empty => return (s, false)
   | .crash x s' =>
